@@ -216,6 +216,7 @@ type Case struct {
 	specOff      bool // spec comparison no longer meaningful (after a compaction or a reported difference)
 	removedMsgs  []removedMsg
 	roundLowered bool
+	c02          bool // evaluate the C02 certificate oracle after every controller op
 	roundBefore  specqbft.Round
 	lastRet      *specqbft.SignedMessage
 	tags         []string // distribution tags collected while the case ran
